@@ -20,7 +20,7 @@ import numpy
 from sim import lifetimes, observe, worldgen
 from . import common
 
-HISTORY_OPS = ['copy', 'copy_deep', 'copy_module', 'pickle', 'hold_refs', 'hold_refs', 'drop_refs', 'gc', 'touch', 'load', 'key', 'key']
+HISTORY_OPS = ['copy', 'copy_deep', 'copy_module', 'pickle', 'hold_refs', 'hold_refs', 'drop_refs', 'gc', 'touch', 'load', 'key', 'key', 'memory_layout', 'memory_layout']
 NONGEOM_EDITS = ['add_var', 'drop_var', 'alter_var', 'slice_time', 'global_attr', 'data_var_attr']
 GEOM_EDITS = ['value', 'dtype_same_bytes', 'shape_same_bytes', 'rename', 'attr_add', 'attr_change', 'attr_remove', 'convention']
 
@@ -371,6 +371,14 @@ def _key_lifetime(ctx, plan, scratch):
                     pass
             elif kind == 'load':
                 ds.load()
+            elif kind == 'memory_layout':
+                # the same values, dtype and shape held in another memory layout (Fortran order, as after a transpose,
+                # f2py or loadmat): nothing about the geometry changed
+                for name in geom_vars(ds):
+                    var = ds.variables[name]
+                    if var.ndim >= 2:
+                        vals = numpy.asarray(var.values)
+                        var.values = numpy.asfortranarray(vals) if not vals.flags['F_CONTIGUOUS'] or vals.flags['C_CONTIGUOUS'] else numpy.ascontiguousarray(vals)
             elif kind == 'persist':
                 n_persist[0] += 1
                 p = os.path.join(scratch, f'persist{n_persist[0]}.nc')
